@@ -214,6 +214,9 @@ impl BDF {
             guess.abs()
         };
 
+        // Never start below the resolution of x: such a step cannot advance x and would only trip
+        // the stagnation guard (SciPy's BDF raises the step to 10 ulp of t in the same way).
+        h_abs = h_abs.max(10.0 * Float::EPSILON * x.abs());
         h_abs = h_abs.min(hmax.max(Float::MIN_POSITIVE));
         let mut current_h = h_abs;
 
